@@ -609,6 +609,19 @@ def run_property(pid, tier, seed):
                 path = runner.write_replay(pid, "nibble", ["property=C11 kind=table (T1, complete sweep of all 65 536 PI values x 256 ECC): the country depends on more than the PI country nibble"], ["new", "p %d 4096 %d 0 0 0 0 0" % (pi, e)])
                 ctx.add_violation(path, "country depends on PI bits outside the nibble")
             if pid == "C18":
+                # pure lookups: no byte of the library's writable segment changes while every lookup runs over its whole domain
+                try:
+                    segx = infra.build_binary("u", "extractseg")
+                    rr = subprocess.run([segx], stdout=subprocess.PIPE, stderr=subprocess.PIPE, text=True, timeout=120)
+                    mseg = re.search(r"SEG segments=(\d+) bytes=(\d+) changed=(\d+)", rr.stdout)
+                    ctx.cov["lookup_segment_check"] = mseg.group(0) if mseg else "no SEG line (exit %d)" % rr.returncode
+                    if mseg and int(mseg.group(1)) > 0 and int(mseg.group(3)) > 0:
+                        diffs = [l for l in rr.stdout.splitlines() if l.startswith("SEGDIFF")]
+                        path = runner.write_replay(pid, "lookup-segment", ["property=C18 kind=runtime: the lookup functions wrote to the library's writable data segment (a cache or scratch buffer behind a function that must return constant strings): " + "; ".join(diffs[:4]),
+                                                                            "replay: build the library as a shared object and run harness/extract.c with -DSEGCHECK (tools/infra.py kind 'extractseg')"], [])
+                        ctx.add_violation(path, "lookup functions modify static state (%s bytes)" % mseg.group(3))
+                except (infra.BuildError, subprocess.TimeoutExpired) as e:
+                    ctx.notes.append("lookup segment check not run: " + str(e)[:200])
                 uns = du.get("unstable", []) + dn.get("unstable", [])
                 ctx.cov["kept_pointers_rechecked"] = 256 * 8 * 2
                 FN = {"PTYNAME": "rdsparser_pty_lookup_name", "PTYSHORT": "rdsparser_pty_lookup_short", "PTYLONG": "rdsparser_pty_lookup_long", "CNAME": "rdsparser_country_lookup_name", "CISO": "rdsparser_country_lookup_iso"}
